@@ -229,3 +229,14 @@ Proof. exact sample_plain_ok. Qed.
 Example C09_follow_succeeds_somewhere :
   exists w', cgnsconvert Cur 4 worldAB [65] [67] false true = Ok w'.
 Proof. exact follow_succeeds_somewhere. Qed.
+(* [depth] is carried exactly as recurse_nodes carries it (incremented once per copied sibling, not per level) *)
+Example C09_depth_counts_siblings :
+  let rec_depth := fun (k : node) (c : node) (d : Z) => Ok (Node (node_name c) [] [] [d] [] []) in
+  kids_loop rec_depth (fun _ _ c d => Ok (Node (node_name c) [] [] [d] [] [])) true
+    [Node [97] [] s_MT [] [] []; LinkNode [108] [] [47;97]; Node [98] [] s_MT [] [] []; LinkNode [109] [66] [47;88];
+     Node [99] [] s_MT [] [] []]
+    (Node [] [] s_MT [] [] []) 5 =
+  Ok (Node [] [] s_MT [] []
+        [Node [97] [] [] [6] [] []; LinkNode [108] [] [47;97]; Node [98] [] [] [7] [] []; Node [109] [] [] [8] [] [];
+         Node [99] [] [] [9] [] []]).
+Proof. exact depth_counts_siblings. Qed.
